@@ -32,7 +32,8 @@ RULE = ("Hypothesis draws tall matrices of full column rank BY CONSTRUCTION: r g
         "(never an expected index vector) evaluated on the exactly column-normalised An = A D^-1 (max|column| in [0.5,1); A = B A[I] "
         "<=> An = B An[I]) + an independently solved B_ref = An inv(An[I]) + the scaling symmetry: I and B for A D' are bit-for-bit "
         "those for A. Non-trivial = n-r >= 2 and (cond >= 1e4 or zero/duplicate rows "
-        "or dr_min > 0); distinct by SHA-1 of the case (+ iteration limit).")
+        "or dr_min > 0); distinct by SHA-1 of the case (+ iteration limit)."
+        " PRESENTATIONS: maxvol and maxvol_rect are also called on the same matrix stored in Fortran order / as a strided view and, when all entries are integers (family int, unit scale), as int64 / int32 arrays in C or Fortran order: the same oracles, argument untouched.")
 TOLERANCES = ("COLUMN BY COLUMN max_i|A - B A[I]|_ij <= 64 eps q max_i|A_ij| g (the backward error of the triangular solves is componentwise "
               "in U, hence relative to each column of A; there is no absolute term anywhere), q = len(I), g = max(max|B|, max|L inv(L[:r])| of my own partial-pivoting LU of A) = "
               "largest coefficient matrix of the run (rounding committed while B was large stays in B after it has shrunk; g <= 2^(r-1)). "
@@ -287,6 +288,29 @@ def submatrix_stats(ctx, what, A, Il):
 
 # ------------------------------------------------------------------------------------------- maxvol
 
+def presentations(A, sel):
+    """Other ways a caller may store the very same matrix: Fortran order, a strided view, and - when every entry is an integer below
+    2^31 - integer arrays in either order.  [(label, array)]"""
+    out = [("float64_F", np.asfortranarray(A)), ("float64_strided", np.repeat(A, 2, axis=1)[:, ::2])]
+    if np.array_equal(A, np.round(A)) and float(np.max(np.abs(A), initial=0.0)) < 2 ** 31:
+        out += [("int64_C", A.astype(np.int64)), ("int64_F", np.asfortranarray(A.astype(np.int64))), ("int32_C", A.astype(np.int32)),
+                ("int32_F", np.asfortranarray(A.astype(np.int32)))]
+        return [out[sel % 2], out[2 + sel % 4]]
+    return [out[sel % 2]]
+
+
+def check_presentations(ctx, name, fn, mat, spec, lo, hi, exact_identity, *args):
+    for label, Ap in presentations(mat.A, spec["seed"]):
+        keep = Ap.copy()
+        what = f"{name} (matrix stored as {label})"
+        out = ctx.lib(fn, Ap, *args)
+        ctx.check(isinstance(out, tuple) and len(out) == 2, f"{what}: did not return a pair (I, B)")
+        validate(ctx, what, mat, out[0], out[1], lo, hi, exact_identity)
+        ctx.check(np.array_equal(Ap, keep) and Ap.dtype == keep.dtype, f"{what}: the argument was modified")
+        ctx.label("stored:" + label)
+        ctx.inner(1)
+
+
 @st.composite
 def maxvol_cases(draw, tier):
     spec = draw(matrix_specs(tier))
@@ -335,6 +359,7 @@ def prop_maxvol(case, ctx):
         if first is None:
             first = Il
         ctx.inner(1, nontrivial_key=f"k{k}" if nt else None)
+    check_presentations(ctx, f"maxvol(e={e})", teneva.maxvol, mat, spec, r, r, False, e, K_BIG)
     ctx.label("e=%g" % e if e in E_SET else "e:float")
     ctx.nontrivial(nt)
 
@@ -381,6 +406,7 @@ def prop_rect(case, ctx):
     hi = n if dr_max is None else min(n, r + dr_max)
     Il, q = validate(ctx, what, mat, I, B, lo, hi, True)
     scaling_symmetry(ctx, what, mat, case.get("partner"), I, B, teneva.maxvol_rect, *args)
+    check_presentations(ctx, what, teneva.maxvol_rect, mat, spec, lo, hi, True, *args)
     nzero = int(np.sum(~np.any(A != 0, axis=1)))
     if q < hi:
         # stopped by the accuracy test: the start matrix of the greedy phase gives the scale of the cancellation in F
